@@ -114,12 +114,40 @@ async def timeout_reexecution():
         await conn.undeploy(False)
 
 
+async def after_timeout_sequence():
+    """commands that follow a timed-out command on the same persistent shell.  The command right after the timeout is covered by the
+    recorded finding (the late output and end marker of the timed-out command sit in front of its output); every LATER command must
+    again return its own output and exit status, as in a fresh process"""
+    conn = PlainConnector(deployment_name="base", config_dir=tempfile.gettempdir(), transferBufferSize=2 ** 16)
+    loc = ExecutionLocation(deployment="base", name="loc")
+    try:
+        await asyncio.wait_for(conn.run(location=loc, command=["echo", "warm-up"], capture_output=True, timeout=10), 30)
+        try:
+            await asyncio.wait_for(conn.run(location=loc, command=["sh", "-c", shlex.quote("sleep 1.5; echo late")], capture_output=True, timeout=1), 20)
+        except Exception:
+            pass
+        got = []
+        for k in range(4):
+            cmd = ["sh", "-c", shlex.quote(f"printf 'out-{k}'; exit {k}")]
+            try:
+                got.append(await asyncio.wait_for(conn.run(location=loc, command=cmd, capture_output=True, timeout=10), 30))
+            except Exception as e:  # noqa
+                got.append(f"{type(e).__name__}: {e}")
+        want = [(f"out-{k}", k) for k in range(4)]
+        if got[1:] != want[1:]:
+            return {"failure": "commands run after a timed-out command on the same persistent shell do not return their own output and exit status",
+                    "returned": [repr(g)[:120] for g in got], "expected_from_the_second_on": want[1:]}
+        return None
+    finally:
+        await conn.undeploy(False)
+
+
 def replay(path):
     d = load_replay(path)
     if (d.get("info") or {}).get("known") == "KF-C25-timeout-reexecution":
         n = asyncio.run(timeout_reexecution())
         finish_replay(path, {"executions_of_one_command_after_a_shell_timeout": n} if n != 1 else None)
-    finish_replay(path, asyncio.run(verbatim(25)), "(25 environment/workdir cases x 2 executors + a command sequence)")
+    finish_replay(path, asyncio.run(verbatim(25)) or asyncio.run(after_timeout_sequence()), "(25 environment/workdir cases x 2 executors + command sequences, one with a timeout)")
 
 
 def crosscheck(n):
@@ -128,7 +156,7 @@ def crosscheck(n):
         print(json.dumps({"axiom_disagreements": 1, "samples": [ax]}, default=str))
         sys.exit(3)
     k = max(6, int(n) // 5)
-    bad = asyncio.run(verbatim(k))
+    bad = asyncio.run(verbatim(k)) or asyncio.run(after_timeout_sequence())
     if asyncio.run(timeout_reexecution()) != 1:
         KNOWN.add("KF-C25-timeout-reexecution")
     from streamflow.deployment.template import CommandTemplateMap
